@@ -1,0 +1,17 @@
+//go:build verif
+
+// Package verifhooks re-exports internal helpers for the external verification harness.
+// It only exists when the build tag `verif` is set.
+package verifhooks
+
+import "github.com/awslabs/ar-go-tools/internal/funcutil"
+
+// MapParallel re-exports internal/funcutil.MapParallel.
+func MapParallel[T any, S any](a []T, f func(T) S, numRoutines int) []S {
+	return funcutil.MapParallel(a, f, numRoutines)
+}
+
+// Map re-exports internal/funcutil.Map.
+func Map[T any, S any](a []T, f func(T) S) []S {
+	return funcutil.Map(a, f)
+}
